@@ -99,9 +99,9 @@ class Verifier:
     def verify_block_termination(self, block):
         """Verify that the block is terminated correctly"""
         if block.is_empty:
-            raise ValueError(f"Block is empty: {block}")
+            raise IrFormError(f"Block is empty: {block}")
         if not block.last_instruction.is_terminator:
-            raise ValueError(
+            raise IrFormError(
                 f"Last instruction of {block} is not a terminator"
             )
         assert all(not i.is_terminator for i in block.instructions[:-1])
